@@ -18,8 +18,11 @@ KF_RebasePrefix(o, tmIn, cyc, live) ==
   \/ /\ ~o.opts.abs
      /\ \E k \in cyc : o.collide[o.nodes[k].doc]
   \/ /\ o.opts.skip
-     /\ \E k \in live : /\ o.nodes[k].isref /\ tmIn[k] # 0
-                         /\ o.collide[o.nodes[tmIn[k]].doc]
+     /\ \E k \in live :
+          /\ o.nodes[k].isref
+          \* the document the reference points into (whether or not the loader delivers it)
+          /\ LET u == Resolve(o.docs[o.nodes[k].doc].url, o.nodes[k].ref)
+             IN  \E d \in 1..Len(o.docs) : ~o.docs[d].out /\ SameDoc(o.docs[d].url, u) /\ o.collide[d]
 
 \* KF-CHAIN-MULTIHOP (schema_loader.go deref + expander.go expandParameterOrResponse).
 \* A parameter / response / path item reached through a chain of two or more $ref hops of
